@@ -7,6 +7,8 @@ import LhasaV.Lemmas.ArchiveOf
 import LhasaV.Lemmas.MessagesAgree
 import LhasaV.Lemmas.ArchivePack
 import LhasaV.Lemmas.ExtractTreeOpt
+import LhasaV.Lemmas.PrintList
+import LhasaV.Lemmas.ExtractTreeOw
 /-!
 # C06 — extraction reproduces the archived tree: contents, names, times, modes, links
 -/
@@ -329,5 +331,60 @@ theorem extract_flattened (es : List Entry) (o : Opts) (fs : Fs.St) (answers : B
       flatTreeOf fs.now fs.umask (es.filter (selected o.filters)) p) ∧
     (∀ x, ¬ fs.cwd <+: x → Fs.lookup (run (archiveOf es) o fs answers).fs x = Fs.lookup fs x) :=
   ArchiveOf.extract_archiveOf_flat es o fs answers hok henc hnames hx hu hfs ha
+
+open ExtractTree ExtractTree.Sample ArchiveOf PrintList in
+/-- **The `p` command writes exactly each selected file's contents after its name banner** — on
+bytes, for every encodable entry list (no order condition), every packer with a decoder round trip,
+and EVERY option set (quiet level, `i`, `w=`, wildcards): standard output is the concatenation, over
+the selected entries in archive order, of `printSeg`: for a file `::::::::\n<name>\n::::::::\n`
+(omitted at quiet 2) followed by EXACTLY its data; for a link the line `Symbolic Link <name> ->
+<target>\n`; for a directory nothing (names sanitised by `safe_output`). -/
+theorem print_writes_selected (pk : Packer) (es : List Entry) (hok : ∀ e ∈ es, EntryOk e)
+    (henc : Encodable es) (hpk : Packs pk es) (o : Opts) :
+    Extract.print (archiveWith pk es) o = (es.filter (selected o.filters)).flatMap (printSeg o) :=
+  PrintList.print_archiveWith pk es hok henc hpk o
+
+/-! ## the overwrite policy
+
+`plan ex pol lines es` is the INDEPENDENT specification of the policy (it calls neither
+`confirmOverwrite` nor `readAnswer`): walk the entries in order; a file entry whose place is taken
+(`ex`) is written under policy `all` (options f, q*), kept under `skip`, and under `prompt` the
+answers are read line by line — y/Y write this one, n/N or an empty line keep it, a/A write this
+and all later ones, s/S keep this and all later ones, anything else ask again, end of input abort
+(`exit(-1)`: nothing from that entry on is extracted). Result: the entries written, and whether the
+run aborted. `owTree … old written p` = the archived object where `written` has one at `p`, else
+what was there before. `PreDir fs es`: the extraction directory holds only top-level regular files,
+none at the place of a directory or link member (other names are allowed and must stay). -/
+
+open ExtractTree ExtractTree.Sample ArchiveOf Contain in
+/-- **An archived file replaces an existing one only under the overwrite policy in force.** On
+bytes, for every well-formed encodable tree, extraction directory with pre-existing top-level files,
+policy and answer stream: the run aborts exactly when the specification does, and afterwards every
+path holds the archived object if the specification says "written", and EXACTLY what was there
+before (content, mode, time) otherwise; directories carry their recorded metadata; files at
+names not in the archive and everything outside are untouched. -/
+theorem overwrite_policy (es : List Entry) (hwf : WellFormed es) (henc : Encodable es)
+    (o : Opts) (fs : Fs.St) (answers : Bytes) (ho : OptsOk o) (hfs : PreDir fs es)
+    (ha : Access fs) (hans : o.overwrite = .prompt → OwAnswers answers) :
+    OwOutcome (run (archiveOf es) o fs answers) fs (owPlan fs o answers es) :=
+  ExtractTree.extract_archiveOf_ow es hwf henc o fs answers ho hfs ha hans
+
+open ExtractTree in
+/-- what `OwOutcome` says, spelled out -/
+theorem overwrite_outcome_spelled (r : Extract.St) (fs : Fs.St) (pl : List Entry × Bool) :
+    OwOutcome r fs pl ↔
+      (r.aborted = pl.2 ∧ r.result = !pl.2 ∧
+       (∀ p, p ≠ [] → Fs.lookup r.fs (fs.cwd ++ p) = owTree fs.now fs.umask (oldAt fs) pl.1 p) ∧
+       (∃ m t0 t, Fs.lookup fs fs.cwd = some (.dir m t0) ∧ Fs.lookup r.fs fs.cwd = some (.dir m t) ∧
+         (pl.1 ≠ [] → fs.cwd ≠ [] → t = fs.now) ∧ (pl.1 = [] → t = t0)) ∧
+       (∀ x, ¬ fs.cwd <+: x → Fs.lookup r.fs x = Fs.lookup fs x)) := Iff.rfl
+
+open ExtractTree in
+/-- the model's prompt loop follows the specification -/
+theorem prompt_follows_spec (pol : Overwrite) (a : Bytes) (ls : List Bytes) (h : AnsInv pol a ls) :
+    (askOne pol ls = none → confirmOverwrite 64 pol a = none) ∧
+    (∀ w pol' ls', askOne pol ls = some (w, pol', ls') →
+      ∃ a', confirmOverwrite 64 pol a = some (w, pol', a') ∧ AnsInv pol' a' ls') :=
+  ExtractTree.confirm_follows_spec pol a ls h
 
 end LhasaV.Props.C06
